@@ -47,6 +47,14 @@ CRYPTO = ["flynn/noise handshake and cipher states by assumed contracts: Encrypt
           "sync.Mutex Lock/Unlock are no-ops: the obligations are those of each critical section run sequentially; interleavings are not decided (see C14)",
           "zap logging calls have no effect on the verified state"]
 
+TELLHUB = f("s/swarmutil", "(*TellHub).checkClosed", "(*TellHub).CloseWithError", "(*TellHub).Receive", "(*TellHub).Deliver")
+ASKHUB = f("s/swarmutil", "(*AskHub).checkClosed", "(*AskHub).CloseWithError", "(*AskHub).Close", "(*AskHub).ServeAsk", "(*AskHub).Deliver")
+DISPATCH = f("p/p2pmux", "(*muxCore).handleRecv", "(*muxCore).serveLoop$1$1")
+HUBS = ["channels are abstracted to identity + closed flag; the contents of a channel are constrained only by the element predicates declared in the contracts (asserted at every send, assumed at every receive)",
+        "callbacks (fn) are assumed to keep the hub invariant and not to touch the request being served (fnspec ensures/preserves, listed per run)",
+        "a blocking select is woken by closing a channel iff it has a receive case on that channel (Go runtime semantics, assumed)",
+        "sync.Once.Do runs its function at most once, at the call site; sync.Mutex operations are no-ops (sequential reasoning only)"]
+
 PROPS = [
     dict(id="C01", functions=VEC + FRAG_WIRE + FRAG_AGG + FRAG_SEND + HDR + COLL + MB_SEND, assumptions=COMMON + BINARY),
     dict(id="C02", functions=SESSION + READERS + f("p/p2pke", "(*Channel).Deliver$1", "(*Channel).Send$1"), assumptions=COMMON + CRYPTO),
@@ -55,9 +63,12 @@ PROPS = [
     dict(id="C06", functions=SESSION, assumptions=COMMON + CRYPTO),
     dict(id="C07", functions=CHANNEL, assumptions=COMMON + CRYPTO + ["time.Time modelled as an integer instant"]),
     dict(id="C08", functions=MUX + FRAG_WIRE + FRAG_AGG + HDR + BITMAP + COLL, assumptions=COMMON + BINARY),
-    dict(id="C09", functions=VEC + FRAG_SEND + f("s/fragswarm", "newMessage", "appendUvarint") + MB_SEND + HDR, assumptions=COMMON + BINARY),
+    dict(id="C09", functions=VEC + FRAG_SEND + f("s/fragswarm", "newMessage", "appendUvarint") + MB_SEND + HDR + f("p/p2pmux", "(*muxedSwarm).MTU") + f("s/vswarm", "(*SecureRealm).tell", "(*SecureRealm).ask"), assumptions=COMMON + BINARY),
     dict(id="C10", functions=FRAG_WIRE + FRAG_AGG + BITMAP + COLL, assumptions=COMMON + BINARY),
-    dict(id="C15", functions=MUX, assumptions=COMMON + BINARY),
+    dict(id="C11", functions=ASKHUB + f("p/p2pmux", "(*muxCore).serveLoop$1$1") + f("s/vswarm", "(*SecureRealm).ask"), assumptions=COMMON + HUBS),
+    dict(id="C12", functions=TELLHUB + ASKHUB, assumptions=COMMON + HUBS),
+    dict(id="C13", functions=TELLHUB + ASKHUB, assumptions=COMMON + HUBS),
+    dict(id="C15", functions=MUX + DISPATCH, assumptions=COMMON + BINARY + ["the channel table (sync.Map) only holds swarms built by newMuxedSwarm: trusted contract on muxCore.getSwarm"]),
     dict(id="C18", functions=CACHE + KAD_LAWS, assumptions=COMMON + ["time.Time modelled as an integer instant (IsZero <=> 0, Before/After = </>)",
          "map model: domain/value/cardinality arrays per map object; a non-empty map has a key; range over a map produces each present key at most once and all of them at exhaustion"]),
     dict(id="C19", functions=KAD_LAWS + f("p/kademlia", "(*Cache).bucketIndex"), assumptions=COMMON),
